@@ -33,6 +33,18 @@
 (* Deliberate under-modelling is named: an effect "any" (Havoc_Misaligned, *)
 (* Havoc_Semantics) says the model does not predict whether the decoder    *)
 (* accepts; Layer P still applies to those cases.                          *)
+(*                                                                         *)
+(* Reading of the property for the two JSON-RPC listeners: a request is    *)
+(* "decoded" once envelope and parameter types are read; a method's own    *)
+(* Err (result.Err, owner code -32099) is outcome "errm" - accepted as far *)
+(* as decoding goes, and not constrained by RejectLeavesStore (what a      *)
+(* method that ran may leave behind is C07's business).  A panic, hang or  *)
+(* allocation blow-up anywhere in the handler is a violation.              *)
+(*                                                                         *)
+(* PanicSites are the model's names of the unchecked slices / unwraps of   *)
+(* the pinned code (file::function#kind); the harness reports the observed *)
+(* location normalised from the panic's file:line, which is what the       *)
+(* finding keys are made of.                                               *)
 (***************************************************************************)
 EXTENDS Integers, Sequences, FiniteSets, TLC
 
@@ -478,7 +490,7 @@ LenEff(ly, Ls, j, mu, sh) ==
             [] OTHER        -> E("err"))     \* skips to the end of input
     [] lf.n = "meta_len" ->           \* try_decrypt_payload: decrypted.split_off(meta_len + 4), then SlatepackEncMetadataBin::read
          (CASE mu.a = "v0"  -> E("err")
-            [] mu.a = "dec" -> IF sh.meta.sender \/ sh.meta.nrec > 0 THEN E("err") ELSE E("err")
+            [] mu.a = "dec" -> E("err")      \* the last metadata field (an address, or the flags themselves) is cut: EOF
             [] mu.a = "inc" -> E("innerany")
             [] OTHER        -> PanicAt("types.rs::try_decrypt_payload#split_off"))
     [] lf.a = "len" /\ \E i \in DOMAIN Ls : Ls[i].n = lf.of /\ Ls[i].a = "bech32" -> E("err")   \* bech32 text cut / extended / empty
@@ -714,7 +726,6 @@ EntryPoints ==
 
 PackOuter(ch) == LET lys == Chains[ch] IN
   IF "packbin" \in SeqRange(lys) THEN TakeUntilIncl(lys, "packbin") ELSE TakeUntilIncl(lys, "packjson")
-PackFamily == {"armor_plain", "armor_enc", "bin_plain", "bin_enc", "json_plain", "json_enc"}
 EPsOfChain(ch) ==
   CASE ch \in {"armor_plain", "armor_enc", "json_plain", "json_enc"} ->
          {"pack_nokey", "pack_key", "owner_slate_noidx", "owner_slate_idx0", "owner_decode_noidx", "owner_decode_idx0", "file_pack"}
